@@ -291,9 +291,13 @@ def _unit(args):
     """All orderings (x intercept modes) of one term set for one type tuple."""
     (types, terms, seed, exact, contrast, cluster_by, reverse_within, intercept_modes, perm_limit) = args[:9]
     scheme = args[9] if len(args) > 9 else None
+    scaled = args[10] if len(args) > 10 else None  # (index of the decorated term in `terms`, literal text, "first"|"last")
     frames = _frames_for(types, seed, integer=True, scheme=scheme)
     rankers = _RANKERS.setdefault((types, exact, scheme), (_Ranker(exact), _Ranker(exact)))
     tstrings = _term_strings(types, terms, contrast, reverse_within, scheme)
+    if scaled is not None:
+        j, lit, where = scaled
+        tstrings[j] = f"{lit}:{tstrings[j]}" if where == "first" else f"{tstrings[j]}:{lit}"
     n_eval, keys, samples, failures = 0, set(), [], []
     off_cache = {}
 
@@ -497,6 +501,35 @@ def run_bounded(ctx):
     ) as b:
         _scope(ctx, b, units, False, "spline-intercept")
 
+    # ---- scope 1e: numeric literal multipliers.  One term of the set carries a literal scale (2:B, A:B:0.5, ...), at every
+    # position of the set and in every ordering; a non-zero scale changes neither independence nor the span.
+    units = []
+    if ctx.thorough:
+        lit_types = [(t, 3) for t in _type_multisets(1, ("num", "cat2", "cat3")) + _type_multisets(2) + _type_multisets(3)]
+    else:
+        lit_types = [(("cat2",), 1), (("cat2", "cat3"), 3), (("num", "cat3"), 3), (("num", "cat2", "cat3"), 3), (("cat2", "cat2", "cat3"), 3)]
+    lits = ("2", "3", "0.5")
+    n_sets = 0
+    for types, max_terms in lit_types:
+        for terms in _term_sets(len(types), max_terms):
+            n_sets += 1
+            for j in range(len(terms)):
+                lit = lits[(n_sets + j) % 3] if ctx.thorough else "2"
+                where = "last" if ctx.thorough and (n_sets + j) % 2 else "first"
+                units.append((types, terms, seed, True, None, "none", False, ("first", "off"), None, None, (j, lit, where)))
+    with ctx.bounded(
+        "rank-span-literal-multipliers",
+        rule="as rank-span-3factors-exact with one term of the set multiplied by a numeric literal (written first, e.g. 2:A:B"
+             + ("; thorough: literal 2 / 3 / 0.5, written first or last" if ctx.thorough else "")
+             + "); every choice of the decorated term, every permutation of the terms, intercept first/absent; exact ranks "
+             "(0.5 is dyadic, so the rational arithmetic stays exact)",
+        exhaustive=True,
+        bound=("all 1-, 2- and 3-factor type multisets" if ctx.thorough else
+               "type tuples (2 levels), (2,3 levels), (numeric, 3 levels), (numeric, 2, 3 levels), (2,2,3 levels)")
+              + ", all term sets <=3 terms",
+    ) as b:
+        _scope(ctx, b, units, True, "literal-multiplier")
+
     if ctx.thorough:
         rng = random.Random(seed + 3)
         # ---- scope 2: variants of scope 1 (exact)
@@ -540,6 +573,24 @@ def run_bounded(ctx):
                   f"contrasts {CONTRASTS}",
         ) as b:
             _scope(ctx, b, units, False, "contrasts")
+
+        units = []
+        n_sets = 0
+        for types, max_terms in ((("cat2", "cat3"), 3), (("num", "cat3"), 3), (("num", "cat2", "cat3"), 2)):
+            for terms in _term_sets(len(types), max_terms):
+                for contrast in CONTRASTS:
+                    n_sets += 1
+                    j = n_sets % len(terms)
+                    units.append((types, terms, seed, False, contrast, "none", False, ("first", "off"), None, None,
+                                  (j, ("0.5", "2", "3")[n_sets % 3], "first")))
+        with ctx.bounded(
+            "rank-span-contrasts-literal-multipliers-svd",
+            rule="every built-in contrast with one (rotating) term of the set multiplied by a literal 0.5 / 2 / 3; SVD ranks",
+            exhaustive=False,
+            bound="type tuples (2,3 levels), (numeric, 3 levels) with <=3 terms, (numeric, 2, 3 levels) with <=2 terms; every "
+                  "permutation; intercept first/absent; all contrasts of the contrasts scope",
+        ) as b:
+            _scope(ctx, b, units, False, "contrasts-literal-multiplier")
 
         # ---- scope 4: 4 factors.  The reduced/full decision depends only on which factors are categorical, so the
         # categorical/numeric patterns are enumerated with 2-level factors (the mixed ones with every permutation);
